@@ -156,6 +156,11 @@ package service
 //@   trace[C02,replayed-prefix-is-a-buffer-of-its-own] each bytes.NewReader satisfies private($arg0)
 //@   trace[C02,stream-reassembled-once] exactly 1 io.MultiReader when result.4 == nil
 //@   trace[C01,mark-used-only-on-success] never service.(*cipherList).MarkUsedByClientIP when result.4 != nil
+//@   trace[C01,snapshot-for-this-client] each service.(*cipherList).SnapshotForClientIP satisfies $arg0 == as(cipherList, "*service.cipherList") && $arg1 == clientIP
+//@   trace[C01,one-snapshot] exactly 1 service.(*cipherList).SnapshotForClientIP
+//@   trace[C01,C09,the-whole-snapshot-is-searched-with-the-bytes-read] each service.findEntry satisfies sameslice($arg1, evres("service.(*cipherList).SnapshotForClientIP", 0)) && sameslice($arg0, evarg("io.ReadFull", 1))
+//@   trace[C01,searched-once-when-the-prefix-was-read] exactly 1 service.findEntry when evres("io.ReadFull", 1) == nil
+//@   trace[C01,C09,the-key-found-is-the-key-used] each service.findEntry satisfies result.0 == $res0 && ($res0 == nil ==> result.4 != nil)
 
 // The authenticator installed in a stream handler (a function value): its contract
 // is what NewShadowsocksStreamAuthenticator$1 is verified against.
@@ -197,9 +202,13 @@ package service
 //@   ensures result.2 == nil ==> result.1 != nil
 //@   ensures result.2 != nil ==> result.1 == nil
 
+// The authenticator consults the key list, replay history and metrics it was constructed with.
 //@ func NewShadowsocksStreamAuthenticator
-//@   props C18
+//@   props C01 C07 C15 C18
 //@   params ciphers replayCache metrics l
+//@   trace[C07,the-authenticator-checks-the-history-it-was-given] holds captured(result, "replayCache") == replayCache
+//@   trace[C01,C09,the-authenticator-searches-the-key-list-it-was-given] holds captured(result, "ciphers") == ciphers
+//@   trace[C15,the-authenticator-reports-to-the-metrics-it-was-given] holds metrics != nil ==> captured(result, "metrics") == metrics
 
 //@ func ensureConnectionError
 //@   props C18
@@ -246,6 +255,8 @@ package service
 //@   trace[C02,no-write-deadline-of-its-own] never transport.StreamConn.SetWriteDeadline
 //@   trace[C05,no-direct-dial] never transport.StreamDialer.DialStream
 //@   trace[C06,deadline-before-first-read] before transport.StreamConn.SetReadDeadline service.streamHandler.authenticate
+//@   trace[C06,handshake-read-deadline-not-overridden] notafter transport.StreamConn.SetDeadline transport.StreamConn.SetReadDeadline
+//@   trace[C06,handshake-read-deadline-is-at-most-the-timeout-away] each transport.StreamConn.SetReadDeadline satisfies $recv == outerConn && ($arg0 == 0 || $arg0 <= evres("clock", 0) + h.readTimeout)
 //@   trace[C06,one-authentication] exactly 1 service.streamHandler.authenticate
 //@   trace[C06,probe-absorbed] exactly 1 service.(*streamHandler).absorbProbe when evres("service.streamHandler.authenticate", 2) != nil
 //@   trace[C15,no-probe-when-authenticated] never service.(*streamHandler).absorbProbe when evres("service.streamHandler.authenticate", 2) == nil
@@ -282,6 +293,8 @@ package service
 //@   trace[C02,client-fin-only-after-target-eof] before io.Copy transport.StreamConn.CloseWrite
 //@   trace[C02,no-copy-after-fin] notafter io.Copy transport.StreamConn.CloseWrite
 //@   trace[C02,this-direction-closes-client-write-only] each transport.StreamConn.CloseWrite satisfies $recv == clientConn
+//@   trace[C02,client-fin-does-not-wait-for-the-other-direction] before transport.StreamConn.CloseWrite recv|wg.Wait
+//@   trace[C02,client-fin-sent-once] exactly 1 transport.StreamConn.CloseWrite when evres("transport.StreamDialer.DialStream", 1) == nil
 //@   trace[C02,C06,this-direction-closes-target-read-only] each transport.StreamConn.CloseRead satisfies $recv == evres("transport.StreamDialer.DialStream", 0)
 //@   trace[C02,C18,waits-for-client-direction] exactly 1 recv|wg.Wait when evres("transport.StreamDialer.DialStream", 1) == nil
 //@   trace[C15,dial-failure-status] each transport.StreamDialer.DialStream satisfies $res1 != nil ==> result != nil
@@ -307,6 +320,7 @@ package service
 //@   trace[C02,this-direction-closes-client-read-only] each transport.StreamConn.CloseRead satisfies $recv == clientConn
 //@   trace[C02,fin-sent-once] exactly 1 transport.StreamConn.CloseWrite
 //@   trace[C02,result-delivered-once] exactly 1 send|wg.Done
+//@   trace[C15,the-direction-reports-the-outcome-of-its-relay] each send satisfies $arg0 == evnth("io.Copy", 0, "res", 1)
 //@   trace[C02,result-after-fin] before transport.StreamConn.CloseWrite send|wg.Done
 //@   trace[C06,relay-error-drained] atleast 1 io.Copy
 //@   trace[C02,C06,client-read-side-closed-only-after-the-drain] notafter io.Copy transport.StreamConn.CloseRead
@@ -488,10 +502,15 @@ package service
 //@   ensures[C08,short-salt-rejected] len(salt) < 4 ==> result.2 != nil
 //@   ensures result.2 != nil ==> len(salt) < 4
 
+// Salt prefixes come from crypto/rand.Read, assumed to return fresh bytes and to be safe for concurrent
+// use: true of the operating system's source, not of a replacement installed by the program.
+//@ frozen[C08,C19] crypto/rand.Reader the assumed contract of rand.Read is that of the operating system's generator
+
 //@ func (serverSaltGenerator).getTag
-//@   props C08 C18
+//@   props C08 C18 C19
 //@   params sg prefix
 //@   ensures len(result) == 20
+//@   trace[C08,C19,tag-computed-in-memory-of-this-call] each hash.Hash.Sum satisfies $arg0 == nil || private($arg0)
 
 //@ func (serverSaltGenerator).GetSalt
 //@   props C08 C18
@@ -730,6 +749,10 @@ package service
 //@   params h clientConn
 //@   requires validPacketHandler(h) && clientConn != nil
 //@   trace[C14,table-closed-at-exit] exactly 1 service.(*natmap).Close
+//@   trace[C14,C18,the-receive-loop-ends-only-after-checking-the-read-error] before errors.Is service.(*natmap).Close
+//@   trace[C14,C18,checks-the-read-error-for-ErrClosed] each errors.Is satisfies $arg1 == net.ErrClosed && $arg0 == evres("net.PacketConn.ReadFrom", 2)
+//@   trace[C14,C18,a-transient-read-error-keeps-the-receive-loop-running] each errors.Is satisfies $res0 == false ==> evcount("service.(*natmap).Close") == 0
+//@   trace[C14,C18,reads-the-socket-it-was-given] each net.PacketConn.ReadFrom satisfies $recv == clientConn
 //@   trace[C16,at-most-one-report] loop 1 atmost 1 service.UDPConnMetrics.AddPacketFromClient
 //@   trace[C16,report-iff-association] loop 1 exactly 1 service.UDPConnMetrics.AddPacketFromClient when targetConn != nil
 //@   trace[C16,no-report-without-association] loop 1 never service.UDPConnMetrics.AddPacketFromClient when targetConn == nil
@@ -788,6 +811,10 @@ package service
 //@ func timedCopy
 //@   props C03 C14 C16 C18
 //@   params clientAddr clientConn targetConn l
+// A reply that can be relayed at all (salt + address + payload + tag within one 65507-byte datagram to
+// the client; at least 7 address bytes, 16 tag bytes, salts of at most 32 bytes) fits the read window
+// pkt[saltSize+maxAddrLen:], so the size reported for a relayed reply is its real size.
+//@   lemma[C03,C16,every-reply-that-can-be-relayed-fits-the-read-window] serverUDPBufferSize - 32 - maxAddrLen >= 65507 - 32 - 7 - 16
 //@   requires clientAddr != nil && clientConn != nil && validNatconn(targetConn) && l != nil
 //@   loop 1 invariant !expired && len(pkt) == serverUDPBufferSize && saltSize == pure("shadowsocks.(*EncryptionKey).SaltSize", targetConn.cryptoKey) && bodyStart == saltSize + maxAddrLen
 //@   trace[C16,one-report-per-reply] loop 1 exactly 1 service.UDPConnMetrics.AddPacketFromTarget
@@ -830,6 +857,8 @@ package service
 //@        && (len(pure("socks.ParseAddr", pure("service.addrWithoutZone", evres("service.(*natconn).ReadFrom", 1)))) == 7 \
 //@         || len(pure("socks.ParseAddr", pure("service.addrWithoutZone", evres("service.(*natconn).ReadFrom", 1)))) == 19)
 //@   trace[C04,encrypted-reply-is-sent] each shadowsocks.Pack satisfies $res1 == nil ==> evcount("net.PacketConn.WriteTo") == 1
+//@   trace[C03,nothing-is-sent-unless-it-was-encrypted] each shadowsocks.Pack satisfies $res1 != nil ==> evcount("net.PacketConn.WriteTo") == 0 && result != nil
+//@   trace[C03,nothing-is-sent-without-encrypting] each net.PacketConn.WriteTo satisfies evcount("shadowsocks.Pack") == 1
 //@   trace[C04,nothing-sent-without-reply] atmost 1 net.PacketConn.WriteTo
 //@   trace[C16,client-bytes-are-bytes-written] each net.PacketConn.WriteTo satisfies proxyClientBytes == $res0
 //@   trace[C14,expiry-only-on-error] each service.(*natconn).ReadFrom satisfies expired ==> $res2 != nil
@@ -888,6 +917,7 @@ package service
 //@   trace[C12,one-take-per-call] atmost 1 recv
 
 //@ func (*virtualStreamListener).Close
+//@   loop-free
 //@   props C12 C13 C18 C19
 //@   params sl
 //@   acquires-level 10
@@ -904,6 +934,7 @@ package service
 //@   trace[C12,C19,the-callers-buffer-travels-with-the-request] each send satisfies $recv == pc.readCh && sameslice($arg0.buffer, p) && $arg0.respCh == respCh
 
 //@ func (*virtualPacketConn).Close
+//@   loop-free
 //@   props C12 C13 C18 C19
 //@   params pc
 //@   acquires-level 10
@@ -913,6 +944,7 @@ package service
 // Acquire counts a handle exactly when it hands one out (count == number of handles whose close
 // function has not run): a failed Acquire leaves the count alone.
 //@ func (*multiStreamListener).Acquire
+//@   loop-free
 //@   props C10 C11 C12 C13 C18 C19
 //@   params m
 //@   acquires-level 30
@@ -952,6 +984,7 @@ package service
 // close function of one stream handle. It runs at most once per handle (the handle clears
 // its onCloseFunc) and only after Acquire counted the handle, hence count > 0 on entry.
 //@ func (*multiStreamListener).Acquire$2
+//@   loop-free
 //@   props C11 C12 C13 C18 C19
 //@   acquires-level 20
 //@   requires m != nil
@@ -961,8 +994,10 @@ package service
 //@   ensures[C11,socket-kept-while-in-use] atlock(m.count) > 1 ==> m.ln == atlock(m.ln) && m.ln != nil
 //@   trace[C11,no-close-while-in-use] never service.StreamListener.Close when atlock(m.count) > 1
 //@   trace[C12,close-on-last] exactly 1 service.StreamListener.Close when atlock(m.count) == 1
+//@   trace[C12,socket-closed-before-the-listener-is-marked-free] before service.StreamListener.Close unlock:* when atlock(m.count) == 1
 
 //@ func (*multiPacketListener).Acquire
+//@   loop-free
 //@   props C10 C11 C12 C13 C18 C19
 //@   params m
 //@   acquires-level 30
@@ -991,6 +1026,7 @@ package service
 
 // close function of one packet handle (same ownership argument as for streams)
 //@ func (*multiPacketListener).Acquire$2
+//@   loop-free
 //@   props C11 C12 C13 C18 C19
 //@   acquires-level 20
 //@   requires m != nil
@@ -1000,6 +1036,7 @@ package service
 //@   ensures[C11,socket-kept-while-in-use] atlock(m.count) > 1 ==> m.pc == atlock(m.pc) && m.pc != nil && !closed(m.doneCh)
 //@   trace[C11,no-close-while-in-use] never net.PacketConn.Close when atlock(m.count) > 1
 //@   trace[C12,close-on-last] exactly 1 net.PacketConn.Close when atlock(m.count) == 1
+//@   trace[C12,socket-closed-before-the-listener-is-marked-free] before net.PacketConn.Close unlock:* when atlock(m.count) == 1
 
 //@ func NewMultiStreamListener
 //@   props C18
@@ -1016,6 +1053,7 @@ package service
 //@   ensures result.1 == nil ==> result.0 != nil
 
 //@ func (*listenerManager).ListenStream
+//@   loop-free
 //@   props C09 C12 C13 C18 C19
 //@   params m addr
 //@   acquires-level 20
@@ -1026,12 +1064,14 @@ package service
 //@   trace[C09,C12,listens-on-the-address-given] each service.NewMultiStreamListener satisfies $arg0 == addr
 // owner callbacks: the released address is forgotten, so that it can be bound again
 //@ func (*listenerManager).ListenStream$1
+//@   loop-free
 //@   props C12 C13 C18 C19
 //@   acquires-level 20
 //@   requires m != nil
 //@   trace[C12,released-address-forgotten] exactly 1 mapdelete
 //@   trace[C12,forgets-its-own-address] each mapdelete satisfies $arg0 == m.streamListeners
 //@ func (*listenerManager).ListenPacket
+//@   loop-free
 //@   props C09 C12 C13 C18 C19
 //@   params m addr
 //@   acquires-level 20
@@ -1041,6 +1081,7 @@ package service
 //@   trace[C09,C12,registered-under-the-literal-address] each mapupdate satisfies $arg1 == addr
 //@   trace[C09,C12,listens-on-the-address-given] each service.NewMultiPacketListener satisfies $arg0 == addr
 //@ func (*listenerManager).ListenPacket$1
+//@   loop-free
 //@   props C12 C13 C18 C19
 //@   acquires-level 20
 //@   requires m != nil
@@ -1125,6 +1166,21 @@ package service
 //@   params authenticate timeout
 //@   ensures result != nil && as(result, "*service.streamHandler") != nil
 //@   ensures[C05,default-dialer-installed] as(result, "*service.streamHandler").dialer == defaultDialer && as(result, "*service.streamHandler").authenticate == authenticate
+
+// Setters install exactly what they are given; whatever stands in for "nothing given" must be
+// the validating default (or nothing, which fails closed), never a dialer / validator of their own.
+//@ func (*streamHandler).SetTargetDialer
+//@   props C05 C18
+//@   params s dialer
+//@   requires s != nil
+//@   ensures[C05,installs-the-dialer-given] dialer != nil ==> s.dialer == dialer
+//@   ensures[C05,no-dialer-given-means-the-validating-default-or-none] dialer == nil ==> s.dialer == nil || s.dialer == defaultDialer
+//@   trace[C05,builds-no-dialer-of-its-own] never service.makeValidatingTCPStreamDialer
+//@ func (*packetHandler).SetTargetIPValidator
+//@   props C05 C18
+//@   params h targetIPValidator
+//@   requires h != nil
+//@   ensures[C05,installs-the-validator-given] h.targetIPValidator == targetIPValidator
 
 // package initialiser: the default TCP dialer validates with RequirePublicIP
 //@ func init
